@@ -469,8 +469,10 @@ def finish(run, level, rule, assumptions, extra_cov=None, exhaustive=False):
         cov.update(extra_cov)
     ev = {"property_id": prop, "tier": run.tier, "seed": run.seed, "level": level, "coverage": cov,
           "assumptions": assumptions, "wall_s": round(time.time() - run.t0, 1), "violations": len(violations)}
-    os.makedirs(EVID, exist_ok=True)
-    json.dump(ev, open(os.path.join(EVID, prop + ".json"), "w"), indent=1)
+    # extension families (X..: behaviour beyond the listed properties) keep their evidence apart from the listed properties'
+    evid = EVID if not prop.startswith("X") else EVID + "_ext"
+    os.makedirs(evid, exist_ok=True)
+    json.dump(ev, open(os.path.join(evid, prop + ".json"), "w"), indent=1)
     for kid, h in sorted(known_hits.items()):
         print("KNOWN-FINDING: property=%s %s [%s; %d event(s), e.g. fn=%s cls=%s]" %
               (prop, h["k"]["what"], kid, h["n"], h["ex"]["fn"], h["ex"]["cls"]))
